@@ -189,7 +189,7 @@ func init() {
 			}
 			ev.Coverage["probe_status_mixes"] = map[string]any{"cert": r.SetSize("probe_mix_cert"), "crl": r.SetSize("probe_mix_crl"), "ocsp": r.SetSize("probe_mix_ocsp")}
 			ev.Coverage["recovered_panic_results_judged"] = r.Counters["recovered_panic_results_judged"]
-			if r.SetSize("probe_mix_cert") < 16 || r.SetSize("probe_mix_crl") < 16 || r.SetSize("probe_mix_ocsp") < 16 || r.Counters["recovered_panic_results_judged"] == 0 {
+			if r.SetSize("probe_mix_cert") < 16 || r.SetSize("probe_mix_crl") < 16 || r.SetSize("probe_mix_ocsp") < 16 || r.Counters["recovered_panic_results_judged"] == 0 || r.Counters["global_runs_after_additions"] < 6 {
 				gates = append(gates, "probe-lint part did not realise all 16 status mixes for every kind (or judged no recovered-panic result)")
 			}
 			if r.SetSize("directed_mix_cert") < 12 {
